@@ -333,7 +333,7 @@ theorem firstHit_mem : ∀ (l : List (Bool × Nat)) (rc : Nat), firstHit l = som
     · simp [hc] at h; simp [ih rc h]
 
 theorem defineTable_codes (a : Nat) (auth : Bytes) (p : Pub) :
-    (defineTable a auth p).map (·.2) = [725, 469, 706, 725, 725, 725, 706, 706, 706, 706, 706, 706, 706, 386, 706, 725] := rfl
+    (defineTable a auth p).map (·.2) = [469, 725, 725, 469, 706, 725, 725, 725, 706, 706, 706, 706, 706, 706, 706, 386, 706, 725] := rfl
 
 theorem defineChecks_ne_zero (a : Nat) (auth : Bytes) (p : Pub) (rc : Nat) (h : defineChecks a auth p = some rc) : rc ≠ 0 := by
   have := firstHit_mem _ rc h
